@@ -114,6 +114,80 @@ def play(interval, timeout, arrivals, delays, horizon, pause_at=None, kinds=None
     return obs
 
 
+def stalled_peer_session(who_writes):
+    """the SMSC stops reading one second after the bind (the transport pauses writing: write back-pressure) and never answers again, but keeps
+    the socket open; the application (or nobody) keeps sending. The keep-alive logic must drop that connection and the ESME must get a
+    working session on a later connection: the SMSC answers every later bind at once."""
+    import struct
+    from harness import smppref
+    from aiosmpplib.protocol import SubmitSm
+    from aiosmpplib.state import PhoneNumber
+    from aiosmpplib.retrytimer import SimpleExponentialBackoff
+    loop = vsess.VLoop()
+    asyncio.set_event_loop(loop)
+    smsc = vsess.FakeSMSC(loop)
+    undo = vsess.install(loop, smsc)
+    obs = {'binds': [], 'after_bind': {}}
+    try:
+        esme, hook = vsess.quiet_esme(enquire_link_interval=0.5, socket_timeout=0.5, retry_timer=SimpleExponentialBackoff(100, 2))
+
+        def on_pdu(conn, pdu):
+            for p in vsess.split_pdus(pdu)[0]:
+                cmd, seq = struct.unpack('>I', p[4:8])[0], struct.unpack('>I', p[12:16])[0]
+                if cmd in (1, 2, 9):
+                    obs['binds'].append((round(loop.time(), 2), conn.index))
+                    conn.send(vsess.bind_resp_for(p))
+                    if conn.index == 0:
+                        loop.call_later(1.0, conn.transport.pause_writing)        # the peer stops reading; it never answers again
+                elif conn.index == 0 and loop.time() > 1.0 + conn.opened_at:
+                    pass
+                else:
+                    obs['after_bind'].setdefault(conn.index, []).append(cmd)
+                    if cmd == 4:
+                        conn.send(smppref.header(0x80000004, 0, seq, b'id%d\x00' % seq), delay=0.01)
+                    elif cmd == 0x15:
+                        conn.send(smppref.header(0x80000015, 0, seq), delay=0.01)
+        smsc.on_pdu = on_pdu
+        src = PhoneNumber('38591')
+
+        async def main():
+            t = asyncio.create_task(esme.start())
+            for k in range(200):
+                await asyncio.sleep(0.1)
+                if who_writes == 'application' and k % 1 == 0:
+                    await esme.broker.enqueue(SubmitSm(short_message='m%d' % k, source=src, destination=src, log_id='L%d' % k))
+            obs['start_done'] = t.done()
+            obs['state'] = int(esme.session_state)
+            obs['bound'] = esme._bound.is_set()
+            obs['lock'] = esme._drain_lock.locked()
+            t.cancel()
+            done, _p = await asyncio.wait({t}, timeout=30.0)
+            obs['cancel_hangs'] = not done
+        loop.run_until_complete(main())
+    finally:
+        undo()
+        try:
+            vsess.finish(loop)
+        except vsess.Deadlock:
+            obs['cancel_hangs'] = True
+    return obs
+
+
+def oracle_stalled_peer(obs):
+    if obs['start_done']:
+        return 'start() ended'
+    later = [c for _t, c in obs['binds'] if c > 0]
+    if not later:
+        return f'the stalled connection was never replaced: binds {obs["binds"]}'
+    if obs.get('cancel_hangs'):
+        return 'cancelling start() at the end did not end it within 30 s (a task waits for ever)'
+    working = [c for c in later if obs['after_bind'].get(c)]
+    if not working:
+        return (f'after the stalled connection was dropped the ESME never got a working session: {len(later)} further bind requests were answered at once '
+                f'({obs["binds"][:6]} ...), nothing was written after any of them; the write lock is {"still held" if obs["lock"] else "free"}')
+    return None
+
+
 def ms(x):
     return int(round(x * 1000))
 
@@ -244,6 +318,26 @@ def run(ctx):
         cases.append((f'({ms(interval)}, {ms(timeout)}, {czl([ms(a) for a in arrivals])}, {dterm}, {ms(horizon)})', czl(exp)))
         if i < 2:
             ctx.sample({'interval': interval, 'timeout': timeout, 'arrivals': arrivals[:6], 'probes': obs['probes'][:6], 'dropped_at': drop})
+    # ---- the connection is lost while the receiver handles a response and the application's hook does not return (it waits for something
+    #      only a running session provides): the session must be replaced all the same, within the socket time-out
+    from harness import C01 as _C01
+    for kind in ('ok', 'segmented'):
+        obs = _C01.receiver_cancelled_session(10 ** 6, 0.2, kind, socket_timeout=3.0)
+        ctx.traces += 1
+        ctx.case(('blocked_hook', kind), nontrivial=True)
+        later = [o for o in obs['outcomes'] if o[1] in ('C', 'D', 'E')]
+        if obs.get('start_done') or len(later) < 3:
+            ctx.violation(f'connection lost while the send_error hook called from the correlation of a response never returns ({kind}): the later messages '
+                          f'C, D, E got the outcomes {later} - the session was not replaced (start() ended: {obs.get("start_done")})',
+                          {'function': 'blocked_hook', 'kind': kind})
+    # ---- a peer that stops reading (write back-pressure) and never answers: dropped, and the next connection works
+    for who in ('application', 'nobody'):
+        obs = stalled_peer_session(who)
+        ctx.traces += 1
+        ctx.case(('stalled_peer', who), nontrivial=True)
+        msg = oracle_stalled_peer(obs)
+        if msg:
+            ctx.violation(f'SMSC stops reading 1 s after the bind ({who} keeps writing): {msg}', {'function': 'stalled_peer', 'who_writes': who})
     if proved or not getattr(ctx, 'build_failing', None):
         fn = ('fun p : Z * Z * list Z * list (option Z) * Z => ser_keeper (fst (fst (fst (fst p)))) (snd (fst (fst (fst p)))) '
               '(snd (fst (fst p))) (snd (fst p)) (snd p)')
